@@ -135,6 +135,7 @@ impl Check for C11 {
             links: [LinkCfg { latency_us: c.latency_us[0], fates: vec![] }, LinkCfg { latency_us: c.latency_us[1], fates: vec![] }],
             ticks: vec![Tick { dt_us: 0, acts: [EpAct { step: false, sends: all_sends.clone(), flushes: 0 }, EpAct { step: false, sends: all_sends, flushes: 0 }] }],
             tail: None,
+            premature_acks: Vec::new(),
         };
         sc.normalize();
         let norm = |s: &SendSpec| -> SendSpec {
